@@ -36,6 +36,7 @@ DEFAULT_PROFILE = {
     'late': 0,
     'p_profile': 0,
     'p_monitor': 0,
+    'p_dut_percent': 0,
     'p_monitor_hang': 0,
 }
 
@@ -70,7 +71,7 @@ class Gen(object):
               (2, ('ret', 'STOP')), (3, ('raise', 'ValueError')), (1, ('raise', 'FailExc')),
               (1, ('junk', 'int')), (1, ('junk', 'false')), (1, ('junk', 'str')),
               (1, ('junk', 'zero')), (1, ('junk', 'empty')), (1, ('ret', 'NONE')),
-              (3, ('ret', 'FAIL_SUBTEST'))]
+              (3, ('ret', 'FAIL_SUBTEST')), (1, ('raise', 'SystemExit'))]
       if allow_repeat:
         opts.append((3, ('ret', 'REPEAT')))
       kind, val = t.weighted(opts, 'beh')
@@ -350,6 +351,8 @@ class Gen(object):
     for _ in range(ncb):
       cbs.append('raise' if self.chance('p_callbacks_raise') else 'ok')
     spec['callbacks'] = cbs
+    # a DUT id with a per-cent sign in it (it ends up in log messages and file names)
+    spec['dut_percent'] = bool(p.get('p_dut_percent')) and t.chance(p['p_dut_percent'], 'dut_percent')
     # Test.execute(profile_filename=...): every phase thread runs under cProfile
     spec['profile'] = bool(p.get('p_profile')) and t.chance(p['p_profile'], 'profile')
     spec['watchers'] = t.draw(3, 'nwatch') if p.get('watchers') and t.chance(p['watchers'], 'watch') else 0
